@@ -479,6 +479,7 @@ pub fn exec_report(case: &ExecCase, part: &str) -> RunReport {
 
 impl Property for C11Exec {
     type Case = ExecCase;
+    fn attempts(&self, case: &ExecCase) -> u32 { if case.rt.paused() { 1 } else { 25 } }
     fn part(&self) -> &'static str { "executor-accounting" }
     fn strategy(&self, _tier: Tier) -> BoxedStrategy<ExecCase> { Self::strategy_impl() }
     fn cases(&self, tier: Tier) -> u32 { match tier { Tier::Quick => 4_000, Tier::Thorough => 80_000 } }
@@ -494,6 +495,7 @@ impl Property for C11Exec {
 pub struct C12Exec;
 impl Property for C12Exec {
     type Case = ExecCase;
+    fn attempts(&self, case: &ExecCase) -> u32 { if case.rt.paused() { 1 } else { 25 } }
     fn part(&self) -> &'static str { "executor-lifecycle" }
     fn strategy(&self, _tier: Tier) -> BoxedStrategy<ExecCase> { C11Exec::strategy_impl() }
     fn cases(&self, tier: Tier) -> u32 { match tier { Tier::Quick => 1_500, Tier::Thorough => 30_000 } }
